@@ -2,7 +2,7 @@
 import os
 
 from . import core
-from .rules import stdio, cert, mark, exact, optstore, inval, idx, atomic, own, tokens, idxclass, copy, pair, structfree, buf, div, counter, sentinel, appendinit, verdict, basismap, zerotol, escape, lenclass, djsym, ndet, useb4check, norms, opencheck, shell, esolver, errlost, rescan, certdep, neverset, fmt, defaults, scratch, fullscan, slotleak, floatidx, sensemap, trunc
+from .rules import stdio, cert, mark, exact, optstore, inval, idx, atomic, own, tokens, idxclass, copy, pair, structfree, buf, div, counter, sentinel, appendinit, verdict, basismap, zerotol, escape, lenclass, djsym, ndet, useb4check, norms, opencheck, shell, esolver, errlost, rescan, certdep, neverset, fmt, defaults, scratch, fullscan, slotleak, floatidx, sensemap, trunc, vtypezero
 from .effects import Effects
 
 FIX = os.path.join(os.path.dirname(os.path.abspath(__file__)), "fixtures")
@@ -160,6 +160,7 @@ def c01_rules():
         lambda prog, tier: exact.run(prog, cert_scopes(prog, "OPT")),
         lambda prog, tier: idxclass.run(prog, scope_units=("qsopt_ex/exact.c", "lib_mpq.c", "qsopt_mpq.c")),
         lambda prog, tier: certdep.run(prog, which=("QSexact_optimal_test",)),
+        lambda prog, tier: vtypezero.run(prog),
     ]
 
 
@@ -189,6 +190,7 @@ def c05_rules():
         lambda prog, tier: verdict.run(prog),
         lambda prog, tier: djsym.run_nbsym(prog),
         lambda prog, tier: djsym.run_keepcache(prog),
+        lambda prog, tier: vtypezero.run(prog),
     ]
 
 
@@ -452,6 +454,7 @@ PROPS = {
     },
     "C12": {
         "rules": [lambda prog, tier: verdict.run(prog),
+                  lambda prog, tier: vtypezero.run(prog),
                   lambda prog, tier: basismap.run(prog),
                   lambda prog, tier: djsym.run(prog),
                   lambda prog, tier: zerotol.run(prog, shared_eff(prog), "simplex"),
@@ -615,7 +618,8 @@ PROPS = {
 # (appended to the technique / explanation / level texts above so that MANIFEST and evidence name every deciding method)
 _ADD = {
     "C01": {"level_text": " Since session 3 the presence, coverage, failing signs and data dependences of the test's own gates are decided too "
-                          "(R-CERTDEP): a dropped or narrowed check, a wrong array or index space, a data-dependent skip are reported."},
+                          "(R-CERTDEP): a dropped or narrowed check, a wrong array or index space, a data-dependent skip are reported. (R-VTYPEZERO) wherever a non-basic status is chosen "
+                          "from the variable type, STAT_ZERO is reachable for VFREE only (type-value enumeration through the if forms)."},
     "C02": {"level_text": " R-CERTDEP decides presence, coverage over all internal columns, failing outcomes (<= 0) and data dependences of the "
                           "Farkas-value and infinite-bound gates."},
     "C05": {"technique": "; per-iteration must-write analysis for the co-update of a row's sense with its logical column",
@@ -645,6 +649,9 @@ _ADD = {
     "C11": {"technique": "; census of printf-like calls (set computed from the declarations) with literal / forwarded-format discharge",
             "explanation": " (R-FMT) no text of the input (a name, a line) is used as a format string on a reader path; (R-ERRLOST) the error code of "
                            "a failing callee is examined before it is overwritten."},
+    "C12": {"explanation": " (R-VTYPEZERO) wherever the simplex chooses a non-basic status from the variable type (initial basis, singular-basis "
+                           "repair) STAT_ZERO is reachable for a free variable only, so the basic solution of the returned basis takes every non-basic "
+                           "variable at one of its bounds."},
     "C13": {"technique": "; control-dependence analysis of scratch-mark resets and dependency-counter updates on conditions over exact numbers",
             "explanation": " (R-SCRATCH) in the sparse kernels no clearing of a scratch mark (lpinfo::iwork) and no update of a dependency counter "
                            "(ur/uc/lr/lc_info::delay) is control-dependent on the value of an exact number: an exact cancellation must not change the "
